@@ -41,7 +41,7 @@ func clientKeytab() (*keytab.Keytab, string) {
 func c09Config(skew time.Duration, port int) *config.Config {
 	s := fmt.Sprintf("[libdefaults]\n default_realm = %s\n dns_lookup_kdc = false\n udp_preference_limit = 1\n clockskew = %d\n noaddresses = true\n", c09Realm, int(skew/time.Second))
 	if port != 0 {
-		s += fmt.Sprintf("[realms]\n %s = {\n  kdc = 127.0.0.1:%d\n }\n", c09Realm, port)
+		s += fmt.Sprintf("[realms]\n %s = {\n  kdc = 127.0.0.1:%d\n }\n OTHER.REALM = {\n  kdc = 127.0.0.1:%d\n }\n", c09Realm, port, port)
 	}
 	cfg, err := config.NewFromString(s)
 	if err != nil {
@@ -552,6 +552,99 @@ func TestC09(t *testing.T) {
 			}
 		}
 	}
+	for _, et := range exEts {
+		c09Referral(t, m, v, rng, baseRep(true, et, "password"))
+		for _, d := range defs {
+			if !exchangeSafe(d) || d.asOnly || d.name == "tktsname-other" || d.name == "tktsname-empty" || d.name == "encsname" || d.name == "encsname-short" {
+				continue
+			}
+			c := baseRep(true, et, "password")
+			applyRep(&c, rng, d)
+			c09Referral(t, m, v, rng, c)
+		}
+	}
 	v.ModelAsks = m.N
 	v.Write(t)
+}
+
+// c09Referral: the defect is applied to a referral reply (a TGT for the next realm); the client may follow
+// the referral only if that reply passes every check of a TGS reply.
+func c09Referral(t *testing.T, m *Model, v *Verdict, rng *RNG, c repCase) {
+	cname := types.PrincipalName{NameType: 1, NameString: []string{c09User}}
+	var op string
+	var tgtKey, refKey types.EncryptionKey
+	tgsSeen := 0
+	kdc := startFuncKDC(func(req []byte) []byte {
+		now := time.Now()
+		var a messages.ASReq
+		if a.Unmarshal(req) == nil {
+			rq := kdcReqInfo{cname: a.ReqBody.CName, realm: a.ReqBody.Realm, nonce: a.ReqBody.Nonce, sname: a.ReqBody.SName}
+			cc := baseRep(false, c.et, "password")
+			padata := hintsFor(cc.hints, c.et, c09Realm, cname)
+			key, err := kdcClientKey(cc, cname, padata)
+			if err != nil {
+				return nil
+			}
+			reply, _ := mintKDCRepKey(rng, cc, rq, key, padata, now, &tgtKey)
+			return reply
+		}
+		var tg messages.TGSReq
+		if tg.Unmarshal(req) == nil {
+			tgsSeen++
+			rq := kdcReqInfo{cname: tg.ReqBody.CName, realm: tg.ReqBody.Realm, nonce: tg.ReqBody.Nonce, sname: tg.ReqBody.SName}
+			if tgsSeen == 1 {
+				// the referral: a TGT for OTHER.REALM, with the defect
+				rq.sname = types.PrincipalName{NameType: 2, NameString: []string{"krbtgt", "OTHER.REALM"}}
+				reply, err := mintKDCRepKey(rng, c, rq, tgtKey, nil, now, &refKey)
+				if err != nil {
+					return nil
+				}
+				op = fmt.Sprintf("kr.tgs exchange %d %d %s %s %s %d %s %s %d %s %s", now.UnixNano()/1000, c.skew/time.Microsecond, XS(c09Realm), nameToks(rq.cname), XS(rq.realm),
+					rq.nonce, nameToks(tg.ReqBody.SName), addrToks(nil), tgtKey.KeyType, X(tgtKey.KeyValue), X(reply))
+				return reply
+			}
+			rq.crealm = c09Realm
+			reply, _ := mintKDCRep(rng, baseRep(true, c.et, "password"), rq, refKey, nil, now)
+			return reply
+		}
+		return nil
+	})
+	defer kdc.close()
+	cfg := c09Config(c.skew, kdc.port)
+	cl := client.NewWithPassword(c09User, c09Realm, clientPassword, cfg, client.DisablePAFXFAST(true))
+	defer cl.Destroy()
+	var goRes string
+	if p := Protect(func() {
+		if err := cl.Login(); err != nil {
+			goRes = "login-failed " + err.Error()
+			return
+		}
+		_, _, err := cl.GetServiceTicket("HTTP/svc.elsewhere")
+		goRes = classifyExchangeErr(err)
+	}); p != "" {
+		goRes = "panic " + p
+	}
+	if op == "" {
+		return
+	}
+	mo := m.Ask(op)
+	want := "err 1"
+	switch f := strings.Fields(mo); {
+	case len(f) > 0 && f[0] == "ok":
+		want = "ok 2"
+	case len(f) > 1 && f[0] == "krberror":
+		want = "krberror " + f[1] + " 1"
+	}
+	got := fmt.Sprintf("%s %d", goRes, tgsSeen)
+	desc := fmt.Sprintf("referral/TGS/%d/%s", c.et, c.describe())
+	v.Case(desc, "exchange referral -> "+strings.Fields(goRes + " -")[0])
+	if got != want {
+		what, k := "the client's handling of a referral reply differs from the model's", "correspondence"
+		if strings.HasPrefix(goRes, "ok") || tgsSeen > 1 {
+			what, k = "the client follows a referral whose reply does not answer its request (independent verifier: "+mo+")", "failing-input"
+		} else if strings.HasPrefix(goRes, "panic") {
+			what, k = "the client panicked on a referral reply", "failing-input"
+		}
+		v.Violate(k, "c09:"+desc, what, map[string]string{"case": desc, "go": got, "want": want, "model": mo, "op": op})
+	}
 }
